@@ -55,6 +55,14 @@ def wait_outcomes(f, prims, fail_v, flag="this->signaled"):
     flags = sorted(d["n"] for n in f.nodes if n["k"] == "DeclStmt" for d in n["decls"] if (d.get("t") or "").replace("const ", "").strip() == "bool")
     primset = set(prims)
     pk = {x: fin.key(f, x) for x in prims}
+    # non-bool locals that receive the primitive's return value as it is
+    result_locals = set()
+    for did_, dl_ in q.local_defs(f).items():
+        for kind_, nd_, init_ in dl_:
+            if init_ is not None and f.strip(init_) in primset:
+                nm_ = next((n_["ref"]["n"] for n_ in f.nodes if n_["k"] == "DeclRefExpr" and n_["ref"].get("id") == did_), None)
+                if nm_ and nm_ not in flags:
+                    result_locals.add(nm_)
 
     def setflag(fl, name, v):
         return tuple((v if nm == name else x) for nm, x in zip(flags, fl))
@@ -114,9 +122,11 @@ def wait_outcomes(f, prims, fail_v, flag="this->signaled"):
                 res = nxt
             else:
                 inside = [x for x in prims if x in f.desc(a)]
-                if inside:
-                    vf = fin.eval_expr(f, a, {pk[x]: fail_v for x in inside})
-                    vs = fin.eval_expr(f, a, {pk[x]: 0 for x in inside})
+                held = [nm for nm in result_locals if any(f.nodes[x]["k"] == "DeclRefExpr" and f.nodes[x]["ref"]["n"] == nm for x in [f.strip(a)] + list(f.desc(a)))]
+                if inside or held:
+                    # the primitive's result tested directly, or through the integer local that received it (`const int err = prim(..)`)
+                    vf = fin.eval_expr(f, a, dict({pk[x]: fail_v for x in inside}, **{nm: fail_v for nm in held}))
+                    vs = fin.eval_expr(f, a, dict({pk[x]: 0 for x in inside}, **{nm: 0 for nm in held}))
                     if vf is not None and vs is not None and bool(vf) != bool(vs):
                         failed = bool(vf) == truth
                         res = set((T, failed, K, fl) for (T, P, K, fl) in res)
@@ -281,13 +291,17 @@ def run(prog, chk):
         f = fn(prog, name, 0)
         cs = callsn(f, prim)
         others = [i for i in q.calls(f) if f.nodes[i].get("callee", "").startswith("pthread_") and i not in cs]
-        ok = len(cs) == 1 and not others and "this->data" in q.no_casts(f.r(cs[0]))
+        ok = len(cs) == 1 and not others and "this->data" in q.no_casts(q.xr(f, q.call_args(f, cs[0])[0]))
+        if ok and q.must_pass_from_entry(f, cs) is not None:
+            ok = False      # a path around the primitive
         if ok and shape:
-            rets = [i for i, n in enumerate(f.nodes) if n["k"] == "ReturnStmt" and n["c"]]
-            # the returned value is true exactly when the primitive returned 0 (through any number of const locals)
+            # decision table over the primitive's outcome: true exactly when it returned 0 (whatever statements carry the value)
             kp = fin.key(f, cs[0])
-            ok = len(rets) == 1 and fin.eval_expr(f, f.nodes[rets[0]]["c"][0], {kp: 0}) == 1 and \
-                fin.eval_expr(f, f.nodes[rets[0]]["c"][0], {kp: 16}) == 0
+            for outcome, want in ((0, 1), (16, 0)):
+                _seen, r_, v_ = fin.walk_vals(f, f.entry, {kp: outcome})
+                got = fin.eval_expr(f, f.nodes[r_]["c"][0], v_) if isinstance(r_, int) and f.nodes[r_]["c"] else None
+                if got is None or bool(got) != bool(want):
+                    ok = False
         if ok:
             chk.ok("C11.f", f, "%s maps to %s" % (name, prim), "%s:%s" % (f.file, f.line), f.r(cs[0])[:60], nontrivial=False)
         else:
